@@ -214,6 +214,11 @@ def variants(arr):
   if a.dtype.kind == 'f' and np.all(a == np.round(a)):
     out.append(a.astype(np.int64))
     out.append(a.astype(np.int32))
+    # every integer type that HOLDS the numbers (narrow and unsigned ones included: image data is uint8)
+    for dt in (np.int16, np.int8, np.uint8, np.uint16, np.uint32, np.uint64):
+      info = np.iinfo(dt)
+      if a.size and a.min() >= info.min and a.max() <= info.max:
+        out.append(a.astype(dt))
   return out
 
 
